@@ -187,9 +187,11 @@ def run_case(sc: dict[str, Any]) -> dict[str, Any]:
     from kopf._cogs.clients import api, auth, errors
     from kopf._cogs.structs import credentials, ephemera
     from kopf._core.engines import activities, indexing
+    from sim import clock as vclock
     from sim.vloop import World
     logging.disable(logging.CRITICAL)
     world = World(wall_budget=0)
+    vclock.install(world.clock)
     loop = world.new_loop('client')
     nkeys = sc['nkeys']
     rec = Recorder(world, nkeys)
@@ -208,11 +210,40 @@ def run_case(sc: dict[str, Any]) -> dict[str, Any]:
     rec.next_value = next_value          # type: ignore[attr-defined]
     rec.value_of = lambda info: values[id(info)]      # type: ignore[attr-defined]
 
-    def make_info(val: int, key: int) -> Any:
+    expiries: dict[int, float] = {}
+
+    def expire_now(val: int) -> None:
+        if expiries.pop(val, None) is not None:
+            rec.emit('expire', task='-', val=val)
+
+    # `bump` = (task, n, t): time passes between two iterations of the loop -- right after the n-th time the task queues up for the
+    # vault's lock the clock stands at t (on a real clock time passes between any two steps; the virtual one moves only when told to)
+    bump = sc.get('bump')
+    if bump:
+        seen = {'n': 0}
+        orig_emit = rec.emit
+
+        def emit(ev: str, task: Any = None, **kw: Any) -> None:
+            orig_emit(ev, task, **kw)
+            if ev == 'lock.queue' and rec.events[-1]['task'] == bump[0]:
+                seen['n'] += 1
+                if seen['n'] == bump[1] and world.clock.now < bump[2]:
+                    world.clock.now = bump[2]
+                    for v in sorted(v for v, t_ in expiries.items() if t_ <= bump[2]):
+                        expire_now(v)
+        rec.emit = emit          # type: ignore[method-assign]
+
+    def make_info(val: int, key: int, life: Any = None) -> Any:
+        import datetime as _dt
+        exp = None
+        if life is not None:       # the credentials expire `life` seconds from now (the vault compares with the wall clock: the shim's)
+            exp = vclock.EPOCH + _dt.timedelta(seconds=world.now + life)
+            expiries[val] = world.now + life
+            world.at(world.now + life, lambda: expire_now(val), 0)
         if mode == 'sess':
-            info = credentials.AiohttpSession(aiohttp_session=Sess(srv, val), server='http://fake', priority=sc['prio'][key - 1])
+            info = credentials.AiohttpSession(aiohttp_session=Sess(srv, val), server='http://fake', priority=sc['prio'][key - 1], expiration=exp)
         else:
-            info = credentials.ConnectionInfo(server='http://fake', token=f'v{val}', priority=sc['prio'][key - 1])
+            info = credentials.ConnectionInfo(server='http://fake', token=f'v{val}', priority=sc['prio'][key - 1], expiration=exp)
         values[id(info)] = val; infos.append(info)
         return info
 
@@ -259,7 +290,8 @@ def run_case(sc: dict[str, Any]) -> dict[str, Any]:
                     return last_info[key]          # the very same credentials (an equal object) again
                 val = next_value()
                 rec.pending.add(val)               # type: ignore[attr-defined]
-                info = make_info(val, key)
+                lives = sc.get('lifetimes') or [[None] * nkeys]
+                info = make_info(val, key, lives[(n - 1) % len(lives)][key - 1])
                 rec.fresh[id(info)] = True         # type: ignore[attr-defined]
                 last_val[key] = val; last_info[key] = info
                 return info
@@ -340,6 +372,23 @@ def run_case(sc: dict[str, Any]) -> dict[str, Any]:
         world.drop_loop(loop)
 
 
+def crafted() -> list[dict[str, Any]]:
+    """The schedules of F37, as TLC found them: credentials expire while requests take turns at the vault's lock."""
+    out = []
+    for mode in ('conn', 'sess'):
+        # exp-race: r2 drops the first key's credentials as expired (close() takes 2 s, the lock is held), r3 queues up, the second key's
+        # credentials expire meanwhile; r2 goes on with ITS reading of the clock and selects them, r3 drops them before r2 has made their context
+        out.append({'id': f'exp-race-{mode}', 'mode': mode, 'nkeys': 2, 'prio': [2, 1], 'requesters': {'r1': [1], 'r2': [5], 'r3': [5.5]}, 'latencies': [0],
+                    'revokes': [], 'logins': [['fresh', 'fresh']], 'lifetimes': [[5, 6], [None, None]], 'login_latency': 0, 'close': 2, 'faults': [], 'end': 40})
+        # exp-crash: the first key is revoked, its invalidation holds the lock for 1 s (close()), r2 queues up; then r1 and r2 take turns at
+        # the lock, and the second key's credentials expire between r2's two blocks (time passes between two iterations of the loop)
+        for close, life in ((1, 8), (2, 9)):
+            out.append({'id': f'exp-crash-{mode}-{close}', 'mode': mode, 'nkeys': 2, 'prio': [2, 1], 'requesters': {'r1': [1], 'r2': [6.5]}, 'latencies': [5, 0],
+                        'revokes': [(2, 'oldest')], 'logins': [['fresh', 'fresh']], 'lifetimes': [[None, life], [None, None]], 'login_latency': 0,
+                        'close': close, 'faults': [], 'end': 40, 'bump': ('r2', 3, life)})
+    return out
+
+
 def scenarios(seed: int, n: int) -> list[dict[str, Any]]:
     out: list[dict[str, Any]] = []
     rnd = random.Random(f'vault-{seed}')
@@ -365,10 +414,15 @@ def scenarios(seed: int, n: int) -> list[dict[str, Any]]:
                     'latencies': lat, 'revokes': revokes, 'logins': logins, 'login_latency': rnd.choice([0, 0, 0.5, 1, 2]),
                     'close': rnd.choice([0, 0, 0.5, 1, 2]), 'faults': sorted(rnd.sample(range(1, 12), rnd.choice([0, 0, 1, 2]))),
                     'auth_at': rnd.choice([0, 0, 0, 1, 2]), 'end': 80})
+        r2 = random.Random(f'vault-exp-{seed}-{i}')         # credentials that expire (a stream of its own)
+        if r2.random() < 0.4:
+            out[-1]['lifetimes'] = [[r2.choice([None, None, 2, 3, 4, 6, 9]) for _ in range(nkeys)] for _ in range(r2.randint(1, 3))]
+            if r2.random() < 0.3:      # time passes while a task queues for the lock
+                out[-1]['bump'] = (r2.choice(sorted(requesters)), r2.randint(1, 4), r2.choice([2, 3, 4, 5, 6, 7, 9]))
     return out
 
 
-_RE = re.compile(r'<<\s*"VERDICT",\s*(\d+),\s*"([^"]*)",\s*(-?\d+),\s*(\d+),\s*"([^"]*)"\s*>>')
+_RE = re.compile(r'<<\s*"VERDICT",\s*(\d+),\s*"([^"]*)",\s*(-?\d+),\s*(\d+),\s*"([^"]*)",\s*"([^"]*)"\s*>>')
 
 
 def judge(traces: list[dict[str, Any]], rep: Any = None) -> dict[str, dict[str, Any]]:
@@ -385,7 +439,7 @@ def judge(traces: list[dict[str, Any]], rep: Any = None) -> dict[str, dict[str, 
                 json.dump([{'id': t['id'], 'events': t['events']} for t in ts], f)
             reqs = sorted({e['task'] for t in ts for e in t['events'] if e['task'] not in ('-', 'auth')})
             cfg = ('SPECIFICATION TSpec\nCONSTANTS\n  Req = {%s}\n  NKeys = %d\n  Prio <- P%s\n  MaxItem = %d\n  MaxCtx = 200\n  MaxRevoke = 1000\n'
-                   '  MaxFault = 1000\n  NBackoff = 1\n  MaxRounds = 1000\n  Mode = "%s"\n  LoginOutcomes <- AllOutcomes\n  Variant = "code"\nCONSTRAINT Book\nPOSTCONDITION Verdicts\nCHECK_DEADLOCK FALSE\n'
+                   '  MaxFault = 1000\n  NBackoff = 1\n  MaxExpire = 1000\n  MaxRounds = 1000\n  Mode = "%s"\n  LoginOutcomes <- AllOutcomes\n  Variant = "code"\nCONSTRAINT Book\nPOSTCONDITION Verdicts\nCHECK_DEADLOCK FALSE\n'
                    % (', '.join('"%s"' % r for r in reqs), nkeys, ''.join(str(p) for p in prio), MAXITEM, mode))
             r = tlc.run('Trace_Vault', cfg_text=cfg, workers=1, deque=True, env={'TRACE_FILE': path}, timeout=1800)
         finally:
@@ -406,5 +460,5 @@ def judge(traces: list[dict[str, Any]], rep: Any = None) -> dict[str, dict[str, 
                 v = f'rejected at event {done + 1} of {n}: {ev[done]} (after {ev[max(0, done - 3):done]})'
             else:
                 v = 'accepted'
-            res[t['id']] = {'verdict': v, 'done': done, 'n': n}
+            res[t['id']] = {'verdict': v, 'done': done, 'n': n, 'noted': got[i].group(6)}
     return res
